@@ -168,6 +168,20 @@ def _pure(e):
     return True
 
 
+def _pure_claim(e):
+    """Purity for an expression that is evaluated once and whose value is only tested (an assertion): comprehensions and
+    generators over pure parts are fine here (they are not, for _pure, where the expression may be duplicated)."""
+    for n in ast.walk(e):
+        if isinstance(n, ast.Call):
+            if isinstance(n.func, ast.Attribute) and n.func.attr in _PURE_METHODS:
+                continue
+            if not (isinstance(n.func, ast.Name) and n.func.id in _PURE_CALLS):
+                return False
+        elif isinstance(n, (ast.Lambda, ast.Await, ast.Yield, ast.YieldFrom, ast.NamedExpr)):
+            return False
+    return True
+
+
 def _terminates(body):
     return bool(body) and isinstance(body[-1], (ast.Return, ast.Continue, ast.Break, ast.Raise))
 
@@ -524,6 +538,16 @@ class _Canon(ast.NodeTransformer):
                 rest_ = out[k_ + 2:]
                 parts = {x.id for x in ast.walk(place) if isinstance(x, ast.Name)}
                 stable = True
+                fn_ = getattr(self, 'fn', None)
+                if fn_ is None:
+                    stable = False
+                else:
+                    # the name is bound here and nowhere else, and every read of it lies in the rest of this block
+                    n_st = sum(1 for x in ast.walk(fn_) if isinstance(x, ast.Name) and x.id == t_ and isinstance(x.ctx, (ast.Store, ast.Del)))
+                    n_ld = sum(1 for x in ast.walk(fn_) if isinstance(x, ast.Name) and x.id == t_ and isinstance(x.ctx, ast.Load))
+                    n_in = sum(1 for r_ in rest_ for x in ast.walk(r_) if isinstance(x, ast.Name) and x.id == t_ and isinstance(x.ctx, ast.Load))
+                    if n_st != 1 or n_ld != n_in + 1:
+                        stable = False
                 for r_ in rest_:
                     for x in ast.walk(r_):
                         if isinstance(x, ast.Name) and isinstance(x.ctx, (ast.Store, ast.Del)) and (x.id in parts or x.id == t_):
@@ -552,8 +576,12 @@ class _Canon(ast.NodeTransformer):
         def _inert(st_):
             if isinstance(st_, ast.Pass):
                 return True
-            if isinstance(st_, ast.Assert) and _pure(st_.test) and (st_.msg is None or _pure(st_.msg)):
+            if isinstance(st_, ast.Assert) and _pure_claim(st_.test) and (st_.msg is None or _pure_claim(st_.msg)):
                 return True         # assertions are the author's claims: assumed to hold (and absent under -O)
+            if isinstance(st_, ast.If) and not st_.orelse and len(st_.body) == 1 and isinstance(st_.body[0], ast.Raise) \
+                    and st_.body[0].exc is not None and _pure_claim(st_.test) \
+                    and U(st_.body[0].exc.func if isinstance(st_.body[0].exc, ast.Call) else st_.body[0].exc) == 'AssertionError':
+                return True         # the same claim spelled `if not ok: raise AssertionError(..)`
             if isinstance(st_, ast.For) and not st_.orelse and _pure(st_.iter) and all(_inert(b) for b in st_.body) \
                     and not any(isinstance(x, ast.Name) and x.id in self.ref_names for x in ast.walk(st_.target)):
                 return True
@@ -889,6 +917,7 @@ def canonicalise(rel, module):
         if r is None:
             continue
         c = _Canon(r)
+        c.fn = fn
         got = fold_get_guards(fn, r)
         if got:
             c.steps.extend(got)
